@@ -130,9 +130,9 @@ PROPS["C03"] = {
     "assumptions": ["alloc::fmt::format returns an empty String", UTF8_STUB, "streams::SrcLong: a Read whose read_exact is one copy loop; reads beyond the buffer are assumed away"],
     "tiers": {
         "quick": {"groups": [{"filters": ["c03_q_", "lemma_utf8_valid"], "timeout": 1200, "jobs": 12}],
-                  "bounds": "limit <= 4 (string, byte string), <= 3 (arrays), <= 20 (chunk); declared length: all 2^32 values; unwind 5-30"},
+                  "bounds": "limit <= 4 (string, byte string), <= 3 (read_array), <= 20 (chunk); declared length: all 2^32 values; unwind 5-30"},
         "thorough": {"groups": [{"filters": ["c03_q_", "c03_t_", "lemma_utf8_valid"], "timeout": 1500, "jobs": 12}],
-                     "bounds": "adds the dimensions array of a multi-dimensional Variant array"},
+                     "bounds": "adds the Variant array length (mask 0x86) and the dimensions array of a multi-dimensional Variant array"},
     },
 }
 
@@ -259,5 +259,22 @@ PROPS["C01"] = {
     "tiers": {
         "quick": {"groups": [{"filters": ["c01_q_"], "timeout": 900, "jobs": 16}], "bounds": "17 shapes; payload scalars: all values; strings <= 2 ASCII bytes; buffer 28 bytes; unwind 30"},
         "thorough": {"groups": [{"filters": ["c01_q_", "c01_t_"], "timeout": 2400, "jobs": 12}], "bounds": "adds StatusCode, NodeId guid/bytestring, LocalizedText, ExpandedNodeId, ExtensionObject, DiagnosticInfo, more DataValue shapes, Variant String/NodeId/Variant-in-Variant, Int32 arrays of 2 with and without dimensions"},
+    },
+}
+
+PROPS["C39"] = {
+    "module": "c39_operators",
+    "level": MC,
+    "technique": "Kani/CBMC symbolic execution of the where-clause operator kernels on literal operands with symbolic values (operand types concrete per instance), against the Part 4 operator semantics",
+    "kernels": ["operator::eq/gt/lt/gte/lte", "operator::between", "operator::and/or/not/is_null", "operator::bitwise_and/bitwise_or", "operator::compare_operands", "operator::convert", "operator::value_of (literal)", "Variant::convert"],
+    "explanation": "Per pair of literal operand types (Int32/Int32, Int16/Int64, Byte/UInt16, Int32/Double; Int32 vs String and vs NULL) with symbolic values: no panic; Equals/LessThan/GreaterThan/"
+                   "LessThanOrEqual/GreaterThanOrEqual agree with the mathematical comparison after the implicit conversion, and are all FALSE when no implicit conversion exists. Between is inclusive at both ends (all i32 triples). "
+                   "And/Or/Not/IsNull follow the three-valued truth tables (which operand is NULL concrete, Boolean values symbolic). BitwiseAnd/Or are computed in the larger type; NULL for a non-integer operand.",
+    "outside": "ContentFilter evaluation through `evaluate` (re-decoding operands from ExtensionObjects), element operands (HashSet of visited elements, cycles, out-of-range indexes), attribute operands, wrong operand counts, LIKE (regex), InList, Cast; "
+               "type pairs whose conversion succeeds for some values and fails for others (UInt32/Int32, Int64/UInt64: solver errors after 6 min)",
+    "assumptions": STD_CUTS + ["AddressSpace::default() (empty) - literal operands never read it"],
+    "tiers": {
+        "quick": {"groups": [{"filters": ["c39_q_"], "timeout": 900, "jobs": 10}], "bounds": "all values of the operand types; unwind 1 (straight-line harnesses; drop glue cut under unwinding assertions)"},
+        "thorough": {"groups": [{"filters": ["c39_q_", "c39_t_"], "timeout": 1800, "jobs": 10}], "bounds": "adds Int32/Double, Byte/UInt16 and the remaining NULL placements of And/Or"},
     },
 }
